@@ -1,5 +1,5 @@
 SPECIFICATION MCSpec
-CONSTANTS MaxAcct = 4 MaxFrames = 3 MaxActs = 2 Wide = TRUE
+CONSTANTS MaxAcct = 3 MaxFrames = 2 MaxActs = 1 Wide = TRUE
 INVARIANT RuntimeInv
 PROPERTY DoomedIsAbsorbing
 PROPERTY EffectOnlyWithPermission
